@@ -59,11 +59,11 @@ Classify(raw) ==
   ELSE IF Len(cs) < 2 \/ cs[1] # 109 \/ cs[2] # 47 THEN [c |-> "reject", why |-> "missing_root"]
   ELSE
   LET parts == SplitSlash(SubSeq(cs, 3, Len(cs)))
-      cc    == [i \in 1..Len(parts) |-> ClassComp(parts[i])]
+      cc    == Mat([i \in 1..Len(parts) |-> ClassComp(parts[i])])
   IN  IF \E i \in 1..Len(cc) : cc[i].c = "reject"
         THEN [c |-> "reject", why |-> cc[CHOOSE i \in 1..Len(cc) : cc[i].c = "reject"].why]
       ELSE [c |-> IF blanks \/ \E i \in 1..Len(cc) : cc[i].c = "either" THEN "either" ELSE "accept",
-            comps |-> [i \in 1..Len(cc) |-> cc[i].comp], why |-> ""]
+            comps |-> Mat([i \in 1..Len(cc) |-> cc[i].comp]), why |-> ""]
 
 \* canonical text (ASCII codes)
 PrintComp(c) == DecCodes(BnToDec(c.idx)) \o (IF c.hard THEN <<39>> ELSE <<>>)
